@@ -82,13 +82,24 @@ pub fn gap_offsets(doc: &Doc, k: usize) -> Vec<usize> {
     let text = doc.text();
     let prev_end = if k == 0 { 0 } else { doc.r.tok_ranges[k - 1].1 };
     let next_start = doc.r.tok_ranges.get(k).map(|r| r.0).unwrap_or(text.len());
-    // gaps that contain a comment are skipped (the comment is a token of its own)
-    if text[prev_end..next_start].contains("//") {
-        return vec![];
-    }
+    // a gap that contains comment lines is probed behind the last of them: from the first
+    // byte of the following line (a comment runs to the end of its line)
+    let last_comment_end = doc.r.comments.iter().filter(|c| c.1 >= prev_end && c.2 <= next_start).map(|c| c.2).max();
     // a cursor directly behind a token touches that token (it may still be extended by
     // typing), so the gap proper starts one white-space character behind it
-    let from = if k == 0 { 0 } else { prev_end + 1 };
+    let from = match last_comment_end {
+        Some(e) => {
+            let rest = &text[e..next_start];
+            e + if rest.starts_with("\r\n") { 2 } else if rest.starts_with('\n') || rest.starts_with('\r') { 1 } else { 0 }
+        }
+        None => {
+            if k == 0 {
+                0
+            } else {
+                prev_end + 1
+            }
+        }
+    };
     let mut v: Vec<usize> = (from..next_start).filter(|p| text.is_char_boundary(*p)).collect();
     let punct = doc.pr.toks.get(k).map(|t| matches!(t.class, TokClass::Symbol)).unwrap_or(true);
     if punct && next_start >= from {
@@ -193,7 +204,7 @@ pub fn eval_doc(doc: &Doc) -> (Vec<Failure>, u64, std::collections::BTreeMap<Str
         }
         {
             let prev = if k == 0 { "^".to_string() } else { doc.pr.toks[k - 1].text.clone() };
-            let sub = if class == PosClass::StatementStart && matches!(prev.as_str(), ")" | "else") { ":branch-of-if-or-while" } else { "" };
+            let sub = format!("{}{}", if class == PosClass::StatementStart && matches!(prev.as_str(), ")" | "else") { ":branch-of-if-or-while" } else { "" }, if doc.gaps.contains(&k) { ":behind-a-comment-line" } else { "" });
             let checks: &[&str] = match class {
                 PosClass::StatementStart => &["variables", "procedures"],
                 PosClass::ExpressionStart => &["variables"],
@@ -216,7 +227,7 @@ pub fn eval_doc(doc: &Doc) -> (Vec<Failure>, u64, std::collections::BTreeMap<Str
                 let next_class = doc.pr.toks.get(k).map(|t| match &t.class { TokClass::Ident(_) => "id".to_string(), TokClass::Number => "num".to_string(), _ => t.text.clone() }).unwrap_or_else(|| "$".into());
                 let prev_class = if k == 0 { "^".to_string() } else { match &doc.pr.toks[k - 1].class { TokClass::Ident(_) => "id".to_string(), TokClass::Number => "num".to_string(), _ => doc.pr.toks[k - 1].text.clone() } };
                 let _ = (&prev_class, &next_class, rel);
-                let sub = if class == PosClass::StatementStart && matches!(prev.as_str(), ")" | "else") { ":branch-of-if-or-while" } else { "" };
+                let sub = format!("{}{}", if class == PosClass::StatementStart && matches!(prev.as_str(), ")" | "else") { ":branch-of-if-or-while" } else { "" }, if doc.gaps.contains(&k) { ":behind-a-comment-line" } else { "" });
                 fails.push(Failure {
                     key: format!("completion:{:?}{}:{}", class, sub, what),
                     case: doc.case(json!({"method": "textDocument/completion", "offset": p, "position": lsptext::position(doc.text(), p), "class": format!("{:?}", class),
@@ -244,8 +255,18 @@ pub fn run(tier: Tier) -> Report {
         .flat_map_iter(|(i, it)| {
             let nvar = if it.family == "scenario-permutations" { 4 } else { 1 + (i % 4 == 0) as usize };
             let mut out = vec![];
-            for k in 0..nvar {
-                let doc = Doc::new(it, layouts[(i + k) % layouts.len()], vec![]);
+            let mut docs_of_item: Vec<Doc> = (0..nvar).map(|k| Doc::new(it, layouts[(i + k) % layouts.len()], vec![])).collect();
+            // ... and with a comment line in every classified gap (the position behind it, on the
+            // next line, is the same kind of position)
+            if it.family == "scenario-permutations" || i % 3 == 0 {
+                let plain = &docs_of_item[0];
+                let mut gaps: Vec<usize> = classified_gaps(plain).iter().map(|g| g.1).collect();
+                gaps.sort();
+                gaps.dedup();
+                let l = [Layout::Pretty, Layout::Spaces, Layout::Crlf][i % 3];
+                docs_of_item.push(Doc::new(it, l, gaps));
+            }
+            for doc in docs_of_item {
                 let (f, n, st) = eval_doc(&doc);
                 calls.fetch_add(n, Ordering::Relaxed);
                 docs.fetch_add(1, Ordering::Relaxed);
